@@ -29,8 +29,17 @@ func main() {
 	dur := flag.Duration("dur", 3*time.Second, "how long")
 	workers := flag.Int("workers", 6, "updaters")
 	seed := flag.Uint64("seed", 1, "seed")
+	scenario := flag.String("scenario", "store", "store | runtime | push")
 	flag.Parse()
 	vlib.QuietGlog()
+	switch *scenario {
+	case "runtime":
+		scenarioRuntime(*dur)
+		return
+	case "push":
+		scenarioPush(*dur)
+		return
+	}
 	st := metrics.NewStore()
 	mk := func(name string, kind metrics.Kind, typ metrics.Type, limit int, keys ...string) *metrics.Metric {
 		m := metrics.NewMetric(name, "prog", kind, typ, keys...)
